@@ -64,6 +64,20 @@ class DumperBase(DataStreamProcessor):
         file_name = os.path.basename(path)
         descriptor['path'] = os.path.join(dir_name, hash, file_name)
 
+    def process_datapackage(self, datapackage):
+        datapackage = super(DumperBase, self).process_datapackage(datapackage)
+        # the counters describe what this dump writes: numbers that came in with the descriptors
+        # (e.g. of a package loaded from an earlier dump) are not added to
+        counted = [(datapackage.descriptor, (self.datapackage_rowcount, self.datapackage_bytes))]
+        for descriptor in datapackage.descriptor.get('resources', []):
+            counted.append((descriptor, (self.resource_rowcount, self.resource_bytes)))
+        for descriptor, props in counted:
+            for prop in props:
+                if DumperBase.get_attr(descriptor, prop) is not None:
+                    DumperBase.set_attr(descriptor, prop, 0)
+        datapackage.commit()
+        return datapackage
+
     def row_counter(self, resource, iterator):
         counter = 0
         for row in iterator:
